@@ -4,18 +4,20 @@ CLAIM = ('PARTIAL. static_dispatcher (antisymmetric and symmetric) over Base <- 
          'symmetric swap, on_error for unlisted types, extra argument unchanged; acyclic visitor (default and throwing catch-all, multiple-inheritance side cast) and cyclic visitor. dynamic_cast runs a model of '
          '__dynamic_cast over the type_info objects of the translated module. NOT built: basic_dispatcher / basic_fast_dispatcher / functor_dispatcher (std::map, std::type_index, nested std::function tables)')
 BOUNDS = {'quick': '4 dynamic types per argument (3 listed + 1 unlisted), 2 dispatched arguments, all extra-argument values; visitors over 2-3 visitable classes', 'thorough': 'same, second back end'}
-NOT_COVERED = ['functor_dispatcher over basic_dispatcher and basic_fast_dispatcher, registration/erasure histories, lazy class indices: not built (std::map rebalancing and type_index hashing are out-of-line libstdc++ code; the nested '
-               'std::function tables were judged out of reach in the remaining time) - a defect confined to those classes is NOT detected', 'three dispatched arguments; virtual inheritance']
+NOT_COVERED = ['functor_dispatcher over basic_dispatcher and basic_fast_dispatcher, registration/erasure histories, lazy class indices: not built (std::map rebalancing and type_index hashing are out-of-line libstdc++ code; the nested std::vector<std::function> '
+               'tables of the fast dispatcher gave no verdict within 300 s per registration history) - a defect confined to those classes is NOT detected', 'three dispatched arguments; virtual inheritance']
 ASSUMPTIONS = ['__dynamic_cast is modelled (rt/cxxabi_model.c) for public non-virtual inheritance graphs of depth <= 3, reading dynamic type and offset-to-top from the vtable']
 INERT = ['_ZNSt13runtime_errorC[12]EPKc', '_ZNSt13runtime_errorD[012]Ev']
 
 
 def units(tier):
-    return [Unit('dispatch', 'wrappers.cpp', ['harness.c'], inert=INERT, rt=('verif_rt.c', 'cxxabi_model.c'), tv=[('h_static', []), ('h_acyclic', []), ('h_cyclic', [])], tv_iters=5000)]
+    return [Unit('dispatch', 'wrappers.cpp', ['harness.c'], inert=INERT, rt=('verif_rt.c', 'cxxabi_model.c', 'libstdcxx_models.c'), tv=[('h_static', []), ('h_acyclic', []), ('h_cyclic', []), ('h_fast', [])], tv_iters=5000)]
 
 
 def obligations(tier):
     obs = [Ob('static_dispatcher', 'dispatch', 'h_static', unwind=6, bound='all dynamic type pairs', min_witnesses=2), Ob('acyclic_visitor', 'dispatch', 'h_acyclic', unwind=6, bound='all visitable types'),
            Ob('cyclic_visitor', 'dispatch', 'h_cyclic', unwind=6, bound='all visitable types')]
+    # functor_dispatcher over basic_fast_dispatcher (h_fast / w_fast, kept for native translation validation only): one registration history with symbolic
+    # dynamic types gave no verdict within 300 s (nested std::vector<std::function> reallocation paths), so it is not an obligation and not claimed
     if tier == 'thorough': obs += [Ob(o.name + '@cadical', o.unit, o.fn, unwind=6, backend='cadical') for o in list(obs)]
     return obs
